@@ -1005,7 +1005,9 @@ class StmtMixin:
                 if b.get("k") == "DeferStmt":
                     f2 = (b.get("Call") or {}).get("Fun") or {}
                     if f2.get("k") == "SelectorExpr" and f2["Sel"]["Name"] == "Done":
-                        done = self.expr_text(f2["X"])
+                        x_ = f2["X"]
+                        # named by the field / variable that holds the WaitGroup (not by the receiver's name)
+                        done = x_["Sel"]["Name"] if x_.get("k") == "SelectorExpr" else self.expr_text(x_)
         self.trace_event(st, "go.done:" + done if done else "go.nodone")
         return st
 
